@@ -641,7 +641,7 @@ impl Monitor for C14 {
             let r = guard("piece_board_for_step", || decode_board(o.g.piece_board_for_step(i)));
             match r {
                 Ok(b) => {
-                    let exp = if i == k { sh.board } else { sh.step_boards[i] };
+                    let exp = if i == k { sh.board } else { match sh.step_boards.get(i) { Some(b) => *b, None => continue } };
                     if b != exp {
                         let clause = if i == k { "current_step_board" } else { "earlier_step_board" };
                         s.violate_game("C14", clause, o.rec, format!("step_asked={} current_step={} engine={} recorded={}", i, k, b.compact(), exp.compact()));
